@@ -217,7 +217,10 @@ class Job:
         return False
 
     def result(self):
-        if self.cex is not None:
+        if self.stats.__dict__.get("cross", {}).get("disagree"):
+            verdict = "error"
+            self.detail = "solver disagreement: " + "; ".join(self.stats.__dict__["cross"]["disagree"][:3])
+        elif self.cex is not None:
             verdict = "violation"
         elif self.inconclusive:
             verdict = "inconclusive"
@@ -230,6 +233,8 @@ class Job:
             "paths": st.paths, "nontrivial": self.nontrivial, "vacuity": self.vacuity, "sample": self.sample,
             "cex": self.cex, "detail": "; ".join(self.inconclusive[:3]) if self.inconclusive else self.detail,
             "functions": dict(program().encoded), "extra": self.extra,
+            "cross_check": {"checked": st.__dict__.get("cross", {}).get("checked", 0), "agree": st.__dict__.get("cross", {}).get("agree", 0),
+                            "inconclusive": st.__dict__.get("cross", {}).get("inconclusive", 0), "disagree": st.__dict__.get("cross", {}).get("disagree", [])},
         }
 
 
